@@ -134,5 +134,15 @@ Definition prop_mdquery (input impl : val) : option Z :=
                                                   existsb (bytes_eqb v) (snd qkv)) q) (snd kv)) m)
   then Some 1%Z
   else if negb (val_eqb (v_qvalues rest) (v_qvalues (query_rest param q))) then Some 2%Z
+  (* completeness: every entry of the query with a valid key and a printable value is in the metadata, under the lower-cased
+     key, as many times as the query has it (entries whose keys differ only in letter case are merged, none is lost) *)
+  else if negb (forallb (fun qkv =>
+                   negb (is_md_entry param (fst qkv) && valid_query_key (lower (md_entry_key param (fst qkv)))) ||
+                   forallb (fun v => negb (valid_md_value v) ||
+                      let k := lower (md_entry_key param (fst qkv)) in
+                      let want := length (filter (bytes_eqb v) (flat_map (fun e => if is_md_entry param (fst e) && bytes_eqb (lower (md_entry_key param (fst e))) k then snd e else []) q)) in
+                      let got := length (filter (bytes_eqb v) (flat_map (fun e => if bytes_eqb (fst e) k then snd e else []) m)) in
+                      Nat.eqb want got) (snd qkv)) q)
+  then Some 3%Z
   else None.
 Definition chk_c19_mdquery : val -> val := mk_chk run_mdquery prop_mdquery.
